@@ -20,6 +20,15 @@ CHECKS["C02"] = dict(engine="fp", cat="exploration", tech="TLA+ IEEE-754 referen
 CHECKS["C03"] = dict(engine="str", cat="exploration", tech="TLA+ SMT-LIB string semantics (Str.tla on code-point sequences, 64-bit wrap-around through BVBits) evaluated by TLC on recorded fold/solve/literal events (TraceStr.tla)",
   text="Every string operator on all tuples of a pool of strings (NUL, backslashes, regex metacharacters, newline, escape look-alikes, BMP and astral code points, numerals with sign/space/20+ digits) and boundary indices (0,1,|s|-1,|s|,|s|+1,2^63,2^64-1): folded result, solved result and the code points Z3 actually holds for each constant are compared by TLC with Str.tla.",
   note="Bounded by the pools; solver side through SolverStrings/Z3; known defects are exact failing-input sets (findings/C03-exact*.txt).", ref="5 C03")
+CHECKS["C08"] = dict(engine="util", cat="exploration", tech="TLA+ semantics of the utilities (UtilSem.tla over Term.tla: simultaneous substitution on the held AST, alpha-equivalence, first-match / table-lookup / exclusive-cover semantics, documented slices) evaluated by TLC on recorded calls (TraceExpr.tla)",
+  text="replace / replace_dict, canonicalize, excavate_ite, burrow_ite, ite_cases, ite_dict (all 256 key sets of a 3-bit index: linear and binary-search encodings, every median split), reverse_ite_cases, chop, get_byte(s) and identical are called on nested-If trees and C01-style terms at widths <= 3 (all assignments) and 8..64; TLC computes the specification result itself and compares (structurally for substitution and renaming, semantically under every assignment for the rest).",
+  note="Exhaustive at width <= 3 within the generated shapes; identical() exceptions are informational. Known defects are exact failing-input sets plus predicates for seeded streams.", ref="5 C08")
+CHECKS["C09"] = dict(engine="util", cat="translation_validation", tech="TLA+ reference semantics (Term.tla) and SMT-LIB meaning of every mapped Z3 declaration kind (UtilSem.tla: Z3Apply) evaluated by TLC on recorded simplify round trips and Z3-side abstractions",
+  text="claripy.simplify (AST -> Z3 tactics -> AST) on the C01 term streams must return a term equivalent under every assignment (width <= 3) / sampled assignments (8..64) and never fail on BV/Bool input; terms built directly with the z3 API for each declaration kind of the reverse operator map are abstracted and compared with the SMT-LIB meaning written in TLA+ (bvsmod follows the divisor); outcomes of simplify on FP / string Boolean expressions are recorded.",
+  note="Solver.simplify() keeping the model set is covered by the solver engine (SolverAbs.Simplify). Z3's own simplifier is trusted only through the equivalence check of its output.", ref="5 C09")
+CHECKS["C10"] = dict(engine="truth", cat="exploration", tech="TLA+ validity check (Term.tla, all assignments) by TLC on recorded histories of is_true / is_false answers with the per-backend truth caches as state",
+  text="All Boolean terms of the exhaustive small-width stream are queried through claripy.is_true/is_false, the Bool methods and the Z3 backend, before and after building structurally related terms and after downsize(); every True answer, first-time or re-served from a cache, must hold (fail) under every assignment. At widths 8..64 a True answer is only refuted on sampled assignments. Solver-level is_true/is_false relative to constraints and extra constraints is part of every solver history (C11-C18 traces).",
+  note="False answers carry no information and are always accepted.", ref="5 C10")
 SOLVER_TECH = "TLA+ abstract solver algebra (SolverAbs.tla) + trace validation by TLC (TraceSolver.tla) of recorded histories on the real frontends"
 SOLVER_NOTE = "Trusted: TLC, Term.tla semantics, Z3 inside claripy only as the system under test. Variables of width <= 3 so TLC enumerates every model; histories are seeded-random (length <= 10 + probe battery) over fixed constraint alphabets, REUSE_Z3_SOLVER on and off."
 def solver(pid, text, cat="model_checking", ref=None):
@@ -61,6 +70,8 @@ def main():
                   "source_commits": [], "add_only": True},
         "engines": [
             {"name": "expr", "path": "harness/eng_expr.py", "serves_properties": ["C01", "C04", "C05"], "kind_free_text": "construction events -> TLC (TraceExpr.tla) constant-level trace validation against Term.tla"},
+            {"name": "util", "path": "harness/eng_util.py", "serves_properties": ["C08", "C09"], "kind_free_text": "utility / simplify events -> TLC (TraceExpr.tla + UtilSem.tla)"},
+            {"name": "truth", "path": "harness/eng_truth.py", "serves_properties": ["C10"], "kind_free_text": "truth-query histories -> TLC (TraceExpr.tla)"},
             {"name": "fp", "path": "harness/eng_fp.py", "serves_properties": ["C02"], "kind_free_text": "fold/solve events -> TLC (TraceFP.tla) against FP.tla"},
             {"name": "str", "path": "harness/eng_str.py", "serves_properties": ["C03"], "kind_free_text": "fold/solve/literal events -> TLC (TraceStr.tla) against Str.tla"},
             {"name": "gc", "path": "harness/eng_gc.py", "serves_properties": ["C19"], "kind_free_text": "TLC state graph of GcGuard.tla -> path cover replayed by harness/sched.py on the real code -> TraceGc.tla"},
